@@ -169,19 +169,91 @@ def extract(repo):
 
 
 def _prev_keyword_filter(mod):
-    """Java.filter_headers: `keywords = <pred expr>` ... `keywords.accept(tokens[start - 1])`"""
-    src = textwrap.dedent(inspect.getsource(mod.filter_headers))
-    tree = ast.parse(src)
-    fn = tree.body[0]
-    assigns = [s for s in fn.body if isinstance(s, ast.Assign) and len(s.targets) == 1
-               and isinstance(s.targets[0], ast.Name) and s.targets[0].id == "keywords"]
-    if len(assigns) != 1:
-        raise Refuse("filter_headers: cannot find the `keywords` predicate")
-    want = "header.token_range.start > 0 and keywords.accept(tokens[header.token_range.start - 1])"
-    if want not in " ".join(src.split()):
-        raise Refuse("filter_headers: unexpected filter condition")
-    obj = eval(compile(ast.Expression(assigns[0].value), "<filter_headers>", "eval"), vars(mod))
-    return pred(obj, True)
+    """`<language module>.filter_headers(headers, tokens)` (Java: drop a header preceded by `record` / `new`), OBSERVED, not read
+    off the source: the real function is run on probe inputs while `accept` of every predicate class is wrapped, so the
+    top-level predicate it asks about the token BEFORE the header is captured as an object; then the behaviour is
+    verified on probe tokens built from that predicate's own constants (a header is dropped iff it does not start at
+    token 0 and the predicate accepts the previous token; order and identity of the kept headers preserved). v1 matched
+    the `ast` of the function and refused behaviour-preserving rewrites (comprehension, helper, `start - 1 >= 0`)."""
+    import importlib
+    from pygments.token import Keyword as KW, Name as NM, Punctuation as PU, Operator as OP, Literal as LI, Text as TX
+    from codelimit.common.Location import Location
+    from codelimit.common.Token import Token
+    from codelimit.common.TokenRange import TokenRange
+    from codelimit.common.scope.Header import Header
+    names = ["Name", "Keyword", "Symbol", "Operator", "TokenValue", "Not", "And", "Or", "Balanced"]
+    classes = [getattr(importlib.import_module("codelimit.common.token_matching.predicate." + n), n) for n in names]
+
+    def tok(tt, val, i):
+        return Token(Location(1, i + 1), tt, val)
+
+    def run(tokens, starts):
+        hs = [Header(tokens[s], TokenRange(s, s + 1)) for s in starts]
+        out = mod.filter_headers(list(hs), list(tokens))
+        if any(not any(o is h for h in hs) for o in out):
+            raise Refuse("filter_headers returns objects that are not the given headers")
+        return [next(i for i, h in enumerate(hs) if h is o) for o in out]
+
+    # 1. capture the predicate asked about the previous token
+    sentinel_prev = tok(KW, "\u0000prev-probe", 0)
+    asked, depth = [], [0]
+    saved = {}
+    for c in classes:
+        orig = c.accept
+        saved[c] = orig
+
+        def wrapped(self, token, _orig=orig):
+            if depth[0] == 0 and token is sentinel_prev:
+                asked.append(self)
+            depth[0] += 1
+            try:
+                return _orig(self, token)
+            finally:
+                depth[0] -= 1
+        c.accept = wrapped
+    try:
+        kept = run([sentinel_prev, tok(NM, "f", 1)], [1])
+    finally:
+        for c, o in saved.items():
+            c.accept = o
+    tops = []
+    for a in asked:
+        if not any(a is t for t in tops):
+            tops.append(a)
+    if len(tops) != 1:
+        raise Refuse("filter_headers: %d predicates are asked about the token before a header (expected one)" % len(tops))
+    if kept != [0]:
+        raise Refuse("filter_headers drops a header although its predicate rejects the previous token")
+    p = tops[0]
+    form = pred(p, True)
+    # 2. verify the behaviour on probe tokens made from the predicate's own constants
+    consts = set()
+
+    def walk(q):
+        for attr in ("keyword", "symbol", "value"):
+            if isinstance(getattr(q, attr, None), str):
+                consts.add(getattr(q, attr))
+        for attr in ("left", "right", "predicate"):
+            if hasattr(q, attr) and not isinstance(getattr(q, attr), str):
+                walk(getattr(q, attr))
+    walk(p)
+    probes = [(tt, v) for v in sorted(consts) + ["zz-other"] for tt in (KW, NM, PU, OP, LI, TX)]
+    for (tt, v) in probes:
+        prev = tok(tt, v, 0)
+        expect_drop = bool(type(p).accept(_fresh(p), prev))
+        toks = [tok(NM, "a", 0), prev, tok(NM, "f", 2), tok(NM, "g", 3)]
+        toks[0] = prev                      # header at 1 is preceded by `prev`; header at 0 has no predecessor
+        got = run([prev, tok(NM, "f", 1), tok(NM, "g", 2), prev, tok(NM, "h", 4)], [0, 1, 2, 4])
+        want = [0] + ([] if expect_drop else [1]) + [2] + ([] if expect_drop else [3])
+        if got != want:
+            raise Refuse("filter_headers does not behave as 'drop a header iff it is not first and %s accepts the previous token' "
+                         "(previous token %s %r: kept %s, expected %s)" % (form[0], tt, v, got, want))
+    return form
+
+
+def _fresh(p):
+    import copy
+    return copy.deepcopy(p)
 
 
 def driver_lines(langs):
